@@ -215,6 +215,15 @@ static void positions(sbx_t& sb, rlbox::sandbox_callback<int* (*)(int*), SB>& cb
 }
 
 // ---- histories over three instances -----------------------------------------------------------
+// A history's replay key names the partition and depth of the enumeration it ran in: the library may keep state the
+// harness cannot reset between histories (a function-local or thread-local cache), so "the same case" is the same
+// prefix of the same enumeration, not the one history alone.
+static int g_hist_depth = 5;
+static std::string g_stop_after, g_cur_hist; // replay: stop once this history has run
+static std::string hkey(const std::string& hist)
+{
+  return "hist|" + hist + "|" + std::to_string(g_args.part) + "/" + std::to_string(g_args.parts) + "/" + std::to_string(g_hist_depth);
+}
 struct World
 {
   sbx_t s[3];
@@ -259,7 +268,7 @@ static void world_check(World& w)
           std::string wh = "elsewhere";
           for (int j : w.order)
             if (j != i && got == w.s[j].get_sandbox_impl()->base + o) wh = "relative to instance " + std::to_string(j);
-          viol(std::string("C04 mode=") + kMode + " history kind=load-relative-to-other-sandbox", "hist|" + w.hist, "instance " + std::to_string(i) + ": cell holding " + std::to_string(o) + " loaded " + wh);
+          viol(std::string("C04 mode=") + kMode + " history kind=load-relative-to-other-sandbox", hkey(w.hist), "instance " + std::to_string(i) + ": cell holding " + std::to_string(o) + " loaded " + wh);
         }
         // store
         tn<int*> tp;
@@ -268,7 +277,7 @@ static void world_check(World& w)
         *cell = tp;
         PtrT seen;
         memcpy(&seen, reinterpret_cast<void*>(base + 0x100), sizeof seen);
-        if ((uint64_t)seen != o) viol(std::string("C04 mode=") + kMode + " history kind=store-wrong-representation", "hist|" + w.hist, "instance " + std::to_string(i) + ": stored offset " + std::to_string(o) + ", cell holds " + std::to_string((uint64_t)seen));
+        if ((uint64_t)seen != o) viol(std::string("C04 mode=") + kMode + " history kind=store-wrong-representation", hkey(w.hist), "instance " + std::to_string(i) + ": stored offset " + std::to_string(o) + ", cell holds " + std::to_string((uint64_t)seen));
       }
       // function pointers go through the finder in every mode
       for (uint64_t r = 1; r <= 3; r++) {
@@ -280,13 +289,13 @@ static void world_check(World& w)
         tn<int (*)(long)> f = *fcell;
         const void* want = impl->ftab[r];
         if (reinterpret_cast<const void*>(f.UNSAFE_unverified()) != want)
-          viol(std::string("C04 mode=") + kMode + " history kind=function-pointer-through-other-table", "hist|" + w.hist, "instance " + std::to_string(i) + " representation " + std::to_string(r));
+          viol(std::string("C04 mode=") + kMode + " history kind=function-pointer-through-other-table", hkey(w.hist), "instance " + std::to_string(i) + " representation " + std::to_string(r));
         // and back
         memset(reinterpret_cast<void*>(base + 0x120), 0xEE, 8);
         *fcell = f;
         PtrT seen;
         memcpy(&seen, reinterpret_cast<void*>(base + 0x120), sizeof seen);
-        if ((uint64_t)seen != r) viol(std::string("C04 mode=") + kMode + " history kind=function-pointer-store", "hist|" + w.hist, "instance " + std::to_string(i) + " representation " + std::to_string(r) + " stored as " + std::to_string((uint64_t)seen));
+        if ((uint64_t)seen != r) viol(std::string("C04 mode=") + kMode + " history kind=function-pointer-store", hkey(w.hist), "instance " + std::to_string(i) + " representation " + std::to_string(r) + " stored as " + std::to_string((uint64_t)seen));
       }
       // null in a function cell
       {
@@ -295,10 +304,10 @@ static void world_check(World& w)
         tn<int (**)(long)> fcell;
         fcell.assign_raw_pointer(sb, reinterpret_cast<int (**)(long)>(base + 0x120));
         tn<int (*)(long)> f = *fcell;
-        if (f.UNSAFE_unverified() != nullptr) viol(std::string("C04 mode=") + kMode + " history kind=function-null", "hist|" + w.hist, "0 is not null");
+        if (f.UNSAFE_unverified() != nullptr) viol(std::string("C04 mode=") + kMode + " history kind=function-null", hkey(w.hist), "0 is not null");
       }
     } catch (const std::runtime_error& e) {
-      viol(std::string("C04 mode=") + kMode + " history kind=unexpected-abort", "hist|" + w.hist, std::string("instance ") + std::to_string(i) + ": " + e.what());
+      viol(std::string("C04 mode=") + kMode + " history kind=unexpected-abort", hkey(w.hist), std::string("instance ") + std::to_string(i) + ": " + e.what());
     }
   }
 }
@@ -306,7 +315,7 @@ static void world_check(World& w)
 static void world_check_registry(World& w)
 {
   if (SB::dead_queries() != 0)
-    viol(std::string("C04 mode=") + kMode + " history kind=consulted-destroyed-sandbox", "hist|" + w.hist, "while translating pointers of live instances the library asked a sandbox object that is NOT created whether an address is in its memory (" + std::to_string(SB::dead_queries()) + " queries): the live list holds a destroyed instance");
+    viol(std::string("C04 mode=") + kMode + " history kind=consulted-destroyed-sandbox", hkey(w.hist), "while translating pointers of live instances the library asked a sandbox object that is NOT created whether an address is in its memory (" + std::to_string(SB::dead_queries()) + " queries): the live list holds a destroyed instance");
   SB::dead_queries() = 0;
 }
 static void world_apply(World& w, int i)
@@ -333,6 +342,17 @@ static void run_history(const std::vector<int>& h, std::set<std::string>& lists)
   // history's verdict does not depend on the histories executed before it in this process
   sbx_t::sandbox_list.clear();
   World w;
+  {
+    // the history as the replay key spells it (create / destroy alternate per instance)
+    std::string hs;
+    bool lv[3] = { false, false, false };
+    for (int i : h) {
+      hs += (lv[i] ? "d" : "c") + std::to_string(i);
+      lv[i] = !lv[i];
+    }
+    crash_case(std::string("C04 mode=") + kMode + " history", hkey(hs));
+    g_cur_hist = hs;
+  }
   for (int i : h) {
     world_apply(w, i);
   }
@@ -343,16 +363,32 @@ static void run_history(const std::vector<int>& h, std::set<std::string>& lists)
   world_check_registry(w);
   for (int i = 0; i < 3; i++)
     if (w.live[i]) w.s[i].destroy_sandbox();
+  crash_clear();
+  if (!g_stop_after.empty() && g_cur_hist == g_stop_after) {
+    stat("evaluations", n_eval + n_trans);
+    finish();
+    exit(0);
+  }
 }
 
 int main(int argc, char** argv)
 {
   parse(argc, argv);
+  install_crash_reporter();
   g_thorough = has_flag("--thorough");
   std::string what = opt("--what", "all");
   if (g_args.replay) {
     auto f = split(g_args.replay, '|');
-    if (f[0] == "hist") {
+    if (f[0] == "hist" && f.size() >= 3) {
+      // re-run the enumeration this history was part of, up to and including it (falls through to the normal flow)
+      auto q = split(f[2], '/');
+      g_args.part = atoi(q[0].c_str());
+      g_args.parts = atoi(q[1].c_str());
+      g_hist_depth = atoi(q[2].c_str());
+      g_thorough = g_hist_depth > 5;
+      g_stop_after = f[1];
+      g_args.replay = nullptr;
+    } else if (f[0] == "hist") {
       std::vector<int> h;
       for (size_t i = 0; i + 1 < f[1].size(); i += 2) h.push_back(f[1][i + 1] - '0');
       std::set<std::string> l;
@@ -369,9 +405,11 @@ int main(int argc, char** argv)
       b.destroy_sandbox();
       a.destroy_sandbox();
     }
-    stat("evaluations", n_eval + n_trans);
-    finish();
-    return 0;
+    if (g_args.replay) {
+      stat("evaluations", n_eval + n_trans);
+      finish();
+      return 0;
+    }
   }
   if (what == "all" || what == "positions") {
     // two live instances; the swept one is the *second* in the list
@@ -425,7 +463,8 @@ int main(int argc, char** argv)
     stat("sweep32_offsets", n_eval);
   }
   if ((what == "all" || what == "histories") && kSize <= 65536) {
-    int depth = g_thorough ? 7 : 5;
+    if (g_stop_after.empty()) g_hist_depth = g_thorough ? 7 : 5;
+    int depth = g_hist_depth;
     std::set<std::string> lists;
     uint64_t idx = 0;
     std::vector<int> h;
